@@ -72,10 +72,50 @@ func c01Judge(k c01Case) *vlib.Failure {
 		if pgot != (want || all) {
 			return vlib.Failf("Origins=%q, preflight with Origin %q: status %d ACAO=%q but the configuration allows it: %t", k.Patterns, k.Origin, pre.Status, pacao, want || all)
 		}
+	case "api-after-reconfigure", "api-reconfigure-in-flight":
+		// the probe origin was allowed a moment ago by another configuration of the same middleware
+		got, err := c01History(k.Patterns, k.Origin, k.Via == "api-reconfigure-in-flight")
+		if err != nil {
+			return vlib.Failf("%v", err)
+		}
+		all := slices.Contains(k.Patterns, "*")
+		if got != (want || all) {
+			return vlib.Failf("middleware first configured with Origins=[%q], then reconfigured (%s) to Origins=%q: GET with Origin %q allowed=%t, the current configuration says %t", k.Origin, k.Via, k.Patterns, k.Origin, got, want || all)
+		}
 	default:
 		return vlib.Failf("bad case")
 	}
 	return nil
+}
+
+// c01History: NewMiddleware{Origins: [o]}; GET from o; Reconfigure to the list (sequentially, or from inside
+// ResponseWriter.Header() of that very request); GET from o again. It reports whether o is allowed at the end.
+// If o is not a valid pattern by itself (default port, https with an IP host) there is nothing to do.
+func c01History(list []string, o string, inFlight bool) (allowed bool, err error) {
+	prev, perr := cors.NewMiddleware(cors.Config{Origins: []string{o}, ExtraConfig: cors.ExtraConfig{DangerouslyTolerateSubdomainsOfPublicSuffixes: true}})
+	if perr != nil {
+		return ref.DenotedByAny(list, o) || slices.Contains(list, "*"), nil
+	}
+	cfg := cors.Config{Origins: list, ExtraConfig: cors.ExtraConfig{DangerouslyTolerateSubdomainsOfPublicSuffixes: true}}
+	h := prev.Wrap(noopHandler)
+	req := vlib.Req{Method: "GET", Hdr: map[string][]string{"Origin": {o}}}
+	if inFlight {
+		var rerr error
+		w := &reentrantRW{Rec: *vlib.NewRec(), do: func() { rerr = prev.Reconfigure(&cfg) }}
+		h.ServeHTTP(w, req.HTTP())
+		if rerr != nil {
+			return false, fmt.Errorf("list of valid patterns %q rejected by Reconfigure: %v", list, rerr)
+		}
+	} else {
+		h.ServeHTTP(vlib.NewRec(), req.HTTP())
+		if rerr := prev.Reconfigure(&cfg); rerr != nil {
+			return false, fmt.Errorf("list of valid patterns %q rejected by Reconfigure: %v", list, rerr)
+		}
+	}
+	rec := vlib.NewRec()
+	h.ServeHTTP(rec, req.HTTP())
+	acao := rec.H["Access-Control-Allow-Origin"]
+	return len(acao) == 1 && (acao[0] == o || acao[0] == "*"), nil
 }
 
 func c01Test(k c01Case) string {
@@ -603,8 +643,23 @@ func checkC01(c *vlib.Ctx) (string, string) {
 					}
 				}
 			}
-			c.Evaluations.Add(int64(2 * len(pset)))
-			c.Transitions.Add(int64(2 * len(pset)))
+			// the same verdicts when the probe origin was allowed a moment ago by another configuration
+			for o := range pset {
+				want := all || ref.DenotedByAny(list, o)
+				for vi, via := range []string{"api-after-reconfigure", "api-reconfigure-in-flight"} {
+					got, err := c01History(list, o, vi == 1)
+					if err != nil || got != want {
+						k := c01Case{list, o, via}
+						if jf := vlib.Guard(func() *vlib.Failure { return c01Judge(k) }); jf != nil {
+							ck.Report(k, jf)
+						} else {
+							vlib.HarnessError("API history pass and judge disagree on %+v", k)
+						}
+					}
+				}
+			}
+			c.Evaluations.Add(int64(4 * len(pset)))
+			c.Transitions.Add(int64(8 * len(pset)))
 		})
 		apiLists = w.Count() - 1
 		_ = apiReqs
